@@ -142,15 +142,28 @@ def run_case(case):
         return dict(error=f"{type(e).__name__}: {e}", tb=traceback.format_exc()[-1500:])
 
 
+def probe_once():
+    """does the loader of this tree execute a lightweight task once when it is listed twice as init task
+    (fixes/C13-1.diff), or every entry of the list?"""
+    p, t = S.P(v=1), S.T(v=2)
+    t.submit(run_mode=RunMode.GENERATE_ONLY, init_tasks=[p, p])
+    del S.LOG[:]
+    xpmrun.run(t.__xpm__.job.path / "params.json")
+    n = sum(1 for k, _, _ in S.LOG if k == "exec")
+    del S.LOG[:]
+    return dict(executions=n, once=(n == 1))
+
+
 def main():
     payload = json.load(sys.stdin)
     wd = payload["workdir"]
     os.makedirs(wd, exist_ok=True)
     res = []
     with experiment(wd, "c13", port=-1):
+        pr = probe_once()
         for c in payload["cases"]:
             res.append(run_case(c))
-    print(json.dumps(dict(answers=res)))
+    print(json.dumps(dict(answers=res, probe=pr)))
 
 
 if __name__ == "__main__":
